@@ -1,5 +1,5 @@
 SPECIFICATION Spec
-CONSTANTS H = 24  LenAt = 4  RS = 256  MaxBody = 8  MaxMsg = 7  MaxParts = 0  Gen = FALSE
+CONSTANTS H = 24  LenAt = 4  RS = 256  MaxBody = 8  MaxMsg = 7  MaxCalls = 2  GenChunks = {}  MaxParts = 0  Gen = FALSE
 INVARIANT ExactFrame
 INVARIANT NoPartialReturn
 INVARIANT FailsWithCommError
@@ -8,4 +8,5 @@ INVARIANT SendInOrder
 INVARIANT SendComplete
 PROPERTY Terminates
 PROPERTY Monotone
+PROPERTY FreshCall
 CHECK_DEADLOCK FALSE
